@@ -11,7 +11,10 @@
 //
 // The options of NewFrom (PathSep with any separator, EnableNumKeys, MaxIdx,
 // StructTag, EscapePath) are part of every case; what an input means under
-// them is computed by the model in flat_test.go.
+// them is computed by the model in flat_test.go. So is the key alphabet: under
+// every option set and at every depth the empty name, blank names, integer
+// literals in every spelling, long names and the separators of other option
+// sets occur as keys (oddNames in opts_test.go says what each of them means).
 package c05
 
 import (
@@ -128,12 +131,16 @@ type expectation struct {
 	altStr string
 }
 
-func expectFor(f *gen.Tree, o OptSet) *expectation {
-	e := &expectation{o: o, m: analyse(f, o)}
+func expectFor(f *gen.Tree, o OptSet) *expectation { return expectForAs(f, o, false) }
+
+// expectForAs: with nilConts the nil nodes of f may be spelled as nil maps or
+// nil slices, which are empty containers rather than nil values.
+func expectForAs(f *gen.Tree, o OptSet, nilConts bool) *expectation {
+	e := &expectation{o: o, m: analyseAs(f, o, false, nilConts)}
 	e.want = e.m.root.reify()
 	e.wantStr = o.show(e.want)
 	if e.m.escapedKeys > 0 {
-		e.alt = analyseWith(f, o, true)
+		e.alt = analyseAs(f, o, true, nilConts)
 		e.altStr = o.show(e.alt.root.reify())
 	}
 	return e
@@ -222,6 +229,25 @@ func (e *expectation) classes(add func(string)) {
 	addIf(m.decoyKeys > 0, "key with separator-like characters that stays whole")
 	addIf(m.escapedKeys > 0, "bracketed key under EscapePath")
 	addIf(m.numNames > 0, "integer literal that is a name under the options")
+	addIf(m.emptyKeys > 0, "key: the empty name as a key of its own")
+	addIf(m.emptyInner > 0, "key: dotted with an empty segment inside (a..c)")
+	addIf(m.emptyLead > 0, "key: dotted, begins with the separator (.x)")
+	addIf(m.emptyTrail > 0, "key: dotted, ends with the separator (x.)")
+	addIf(m.onlySeps > 0, "key: separators only (., ..)")
+	addIf(m.blankSegs > 0, "key: blank name or name with leading/trailing white space")
+	addIf(m.oddIdx > 0, "key: index not in plain decimal (+1, -0, 00, 0x1, 010, 1_0)")
+	addIf(m.oddNum > 0, "key: numeric-looking name that is no index under any option set (-1, >= 2^63-1, other digits)")
+	addIf(m.longSegs > 0, "key: name of >= 100 bytes")
+	addIf(m.otherSepSegs > 0, "key: name that is the separator of another option set")
+	addIf(m.caseSegs > 0, "key: name with an upper-case letter")
+	if m.emptyInner+m.emptyLead+m.emptyTrail > 0 {
+		switch {
+		case e.mustFail():
+			add("empty segment: duplicate")
+		case e.comparable():
+			add("empty segment: value compared")
+		}
+	}
 }
 
 func usedClasses(r *runlog.R, used map[string]int) {
@@ -278,6 +304,13 @@ func reprKeys(o OptSet) []string {
 	if o.Esc {
 		keys = append(keys, "[e"+o.Sep+"f]", "[g]", "[e"+o.Sep+"f]")
 	}
+	if o.Sep != "" {
+		// dotted spellings of paths through the empty name
+		keys = append(keys, o.Sep+"x", "x"+o.Sep, o.Sep)
+		if !selfOverlap(o.Sep) {
+			keys = append(keys, "a"+o.Sep+o.Sep+"c")
+		}
+	}
 	return keys
 }
 
@@ -303,7 +336,7 @@ func drawReprs(t *rapid.T, tr *gen.Tree) {
 func genRepr(t *rapid.T) ReprCase {
 	o := genOptSet(t, 2)
 	c := ReprCase{O: &o, Scheme: rapid.IntRange(0, nSchemes-1).Draw(t, "scheme")}
-	cfg := &gen.TreeCfg{Depth: runlog.Pick(3, 5), Width: runlog.Pick(4, 6), Keys: reprKeys(o), Strings: gen.HostileStrings, Reprs: true}
+	cfg := &gen.TreeCfg{Depth: runlog.Pick(3, 5), Width: runlog.Pick(4, 6), Keys: append(reprKeys(o), drawOdd(t, o)...), Strings: gen.HostileStrings, Reprs: true}
 	if rapid.IntRange(0, 4).Draw(t, "toplist") == 0 {
 		c.T = gen.GenList(t, cfg, cfg.Depth)
 	} else {
@@ -359,7 +392,7 @@ func runRepr(c ReprCase, r *runlog.R) error {
 		return nil
 	}
 	opts := o.options()
-	e := expectFor(c.T, o)
+	e := expectForAs(c.T, o, true)
 	if e.m.unclear {
 		r.Discard()
 		return nil
@@ -380,13 +413,14 @@ func runRepr(c ReprCase, r *runlog.R) error {
 			src, e = b.build(vt)
 			return e
 		})
-		if err != nil {
-			return fmt.Errorf("variant %d: building the representation failed: %v", vi, err)
-		}
 		desc := lazy(func() string {
 			return fmt.Sprintf("variant %d: NewFrom(%T) under %s of %s", vi, src, o, showOrderedAs(vt, true))
 		})
-		c1, err := newFrom(src, opts)
+		// (building fails if a part that is written as a *Config holds a duplicate: same verdict)
+		var c1 *ucfg.Config
+		if err == nil {
+			c1, err = newFrom(src, opts)
+		}
 		d1, more, fail := e.verdict(desc, c1, err)
 		if fail != nil {
 			return fail
@@ -455,7 +489,7 @@ func runRepr(c ReprCase, r *runlog.R) error {
 
 var subRepr = runlog.Register(&runlog.Sub[ReprCase]{
 	Name: "repr-roundtrip",
-	Rule: "an option set (no PathSep or one of 37 separators: single characters incl. regexp/printf metacharacters, multi-character and multi-byte ones; EnableNumKeys; MaxIdx 0/1/2/5/4000; StructTag with one of 4 tag names; EscapePath; options in either order) and a random tree (hostile strings, nil, empty containers, keys incl. blank/empty/integer literals, keys holding other separators or parts of the separator, bracketed keys holding the separator with and without EscapePath) built in 3-4 mixed Go representations (as drawn, generic, 1-2 alternative choice vectors: generic/interface-keyed/named/typed maps, slices, arrays, StructOf structs with typed fields whose keys are spread over tagged fields and inline members (maps of 4 kinds, struct, *struct, nested inline struct, interface{} field), every field tagged under the selected one of 4 tag names, which carries the keys, and under one other, which carries another name - or, for one-letter keys, no tag and the upper-cased key as Go field name -, 1-3 pointer levels, *Config also rebranded as type T ucfg.Config, maps with a named string key type; numbers drawn over the whole range of every sized Go kind - the boundaries of int8..int64 / uint8..uint64 and their neighbours, any value in between, any float32 widened exactly (4 of 5 are not the float64 of their shortest decimal text), any float64, +-Inf, -0, no NaN - and given in their natural type, in any sized kind that holds them exactly (int8/16/32/64/int, uint8/16/32/64/uint, float32), in a named type of any of these kinds, named string/bool, behind 1-2 pointers; the primitives of a typed map, slice or array are built in one kind that holds them all ([]float32, [N]int8, map[string]uint16, []*nI32 ...); nil as untyped nil, nil *int / *interface{} / **int, a **int to a nil *int, nil map / slice / named slice, nil pointer to map, struct, Config, slice, array; around any node, the top level included, and around inline members a chain of up to 4 links, each a typed pointer, a pointer to an interface{} variable or a pointer to a variable of a named interface type, in any alternation (*interface{} and **interface{} struct fields, []interface{} element holding *interface{} holding *T, pointer to a nil interface ...); typed containers whose children share no Go type with every child boxed: map[string]*interface{}, []*interface{}, [N]*interface{}); numbers compare by exact value; for each: the generic view of NewFrom(repr, options) equals the tree the model computes from T under the options (integer literals are list indices unless numeric keys are enabled or they exceed MaxIdx; brackets of an escaped key may stay or go), also through an interface{}-typed struct field; NewFrom(Dump) has the same generic view and the same hook fingerprint (nil = absent = empty; byte-identical when T has no nil/empty/index keys). Values are not compared when a node has names next to a list part under EnableNumKeys or beyond MaxIdx. Non-trivial: at least 2 different container representations other than the generic map[string]interface{} / []interface{} occur in the case. Distinct: hash of the case.",
+	Rule: "an option set (no PathSep or one of 37 separators: single characters incl. regexp/printf metacharacters, multi-character and multi-byte ones; EnableNumKeys; MaxIdx 0/1/2/5/4000; StructTag with one of 4 tag names; EscapePath; options in either order) and a random tree (hostile strings, nil, empty containers, keys incl. blank/empty/integer literals, keys holding other separators or parts of the separator, bracketed keys holding the separator with and without EscapePath; under every option set the empty name and, per case, three names from the edge of the key alphabet: blanks and names with leading/trailing white space, integer literals not in plain decimal (+1 -0 00 0x1 010 1_0: list indices by strconv base 0), numeric-looking names that are no index (-1, 2^63-1, 10^30, an Arabic-Indic digit), upper-case names, a name of 300 bytes, the separators of the other option sets; with a separator also the dotted keys \"<sep>x\", \"x<sep>\", \"<sep>\", \"a<sep><sep>c\", which spell paths through the empty name) built in 3-4 mixed Go representations (as drawn, generic, 1-2 alternative choice vectors: generic/interface-keyed/named/typed maps, slices, arrays, StructOf structs with typed fields whose keys are spread over tagged fields and inline members (maps of 4 kinds, struct, *struct, nested inline struct, interface{} field), every field tagged under the selected one of 4 tag names, which carries the keys, and under one other, which carries another name - or, for one-letter keys, no tag and the upper-cased key as Go field name -, 1-3 pointer levels, *Config also rebranded as type T ucfg.Config, maps with a named string key type; numbers drawn over the whole range of every sized Go kind - the boundaries of int8..int64 / uint8..uint64 and their neighbours, any value in between, any float32 widened exactly (4 of 5 are not the float64 of their shortest decimal text), any float64, +-Inf, -0, no NaN - and given in their natural type, in any sized kind that holds them exactly (int8/16/32/64/int, uint8/16/32/64/uint, float32), in a named type of any of these kinds, named string/bool, behind 1-2 pointers; the primitives of a typed map, slice or array are built in one kind that holds them all ([]float32, [N]int8, map[string]uint16, []*nI32 ...); nil as untyped nil, nil *int / *interface{} / **int, a **int to a nil *int, nil map / slice / named slice, nil pointer to map, struct, Config, slice, array; around any node, the top level included, and around inline members a chain of up to 4 links, each a typed pointer, a pointer to an interface{} variable or a pointer to a variable of a named interface type, in any alternation (*interface{} and **interface{} struct fields, []interface{} element holding *interface{} holding *T, pointer to a nil interface ...); typed containers whose children share no Go type with every child boxed: map[string]*interface{}, []*interface{}, [N]*interface{}); numbers compare by exact value; for each: the generic view of NewFrom(repr, options) equals the tree the model computes from T under the options (integer literals are list indices unless numeric keys are enabled or they exceed MaxIdx; brackets of an escaped key may stay or go; an empty segment of a dotted key is the empty name; two literals of one index in one object define one element twice: ErrDuplicateKey for two primitives, either outcome if one of them is a nil, which may be built as an empty container here), also through an interface{}-typed struct field; NewFrom(Dump) has the same generic view and the same hook fingerprint (nil = absent = empty; byte-identical when T has no nil/empty/index keys). Values are not compared when a node has names next to a list part under EnableNumKeys or beyond MaxIdx. Non-trivial: at least 2 different container representations other than the generic map[string]interface{} / []interface{} occur in the case. Distinct: hash of the case.",
 	Gen:  genRepr,
 	Run:  runRepr,
 })
@@ -803,7 +837,7 @@ func runFlat(c FlatCase, r *runlog.R) error {
 	return nil
 }
 
-const flatRule = "an option set with a separator (37 separators: \".\", other single characters incl. every regexp and printf metacharacter, blank, comma, multi-character ones such as \"::\" \"->\" \"..\" \"%s\" \".*\", multi-byte runes; plus EnableNumKeys, MaxIdx 0/1/2/5/4000, StructTag with one of 4 tag names, EscapePath, options in either order) and a random tree T over keys {a,b,c,d,0,1} plus keys that hold parts of the separator or other separators and stay whole (and, without EscapePath, a bracketed key that is split like any other); every leaf path is cut into dotted groups independently (so any subset of the object edges, and of the list edges as index segments, is written dotted, next to nested spellings of sibling parts), numbers, nils and pointer/interface chains around nodes and inline members as in repr-roundtrip (every sized and named Go kind over its whole range incl. float32 values that are no short decimals; typed nil pointers; chains of up to 4 typed-pointer / pointer-to-interface links in any alternation; boxed children of typed containers), objects are generic maps (1/2), structs (1/4: keys in tags, spread in their stated order over runs of tagged fields and inline members - inline maps of 4 kinds, inline struct, *struct, nested inline struct, interface{} field - so that inline members overlap sibling fields; all fields tagged under the selected one of 4 tag names, which carries the keys, and under one other, which carries another name) or any other representation (interface-keyed and typed maps, pointers, *Config); the spelled input F is the case, with its key insertion orders; run: F as stated plus every insertion order of the keys of every object in which two keys start with the same segment (all n! up to 4 keys, rotations and reversal above, at most 48 inputs; 8 repetitions each in replay mode) under the options must give the tree computed from F by an order-free, representation-free model (split keys at the separator, union, integer segments in [0,MaxIdx] are list indices except single-segment keys under EnableNumKeys), the same normalised hook fingerprint as NewFrom(nested tree), and be stable when fed back. Values are not compared when a node has names next to a list part under EnableNumKeys or beyond MaxIdx."
+const flatRule = "an option set with a separator (37 separators: \".\", other single characters incl. every regexp and printf metacharacter, blank, comma, multi-character ones such as \"::\" \"->\" \"..\" \"%s\" \".*\", multi-byte runes; plus EnableNumKeys, MaxIdx 0/1/2/5/4000, StructTag with one of 4 tag names, EscapePath, options in either order) and a random tree T over keys {a,b,c,d,0,1} plus keys that hold parts of the separator or other separators and stay whole (and, without EscapePath, a bracketed key that is split like any other) plus, at every depth, the empty name and three names per case from the edge of the key alphabet (blanks and names with leading/trailing white space; integer literals not in plain decimal such as +1 -0 00 0x1 010 1_0, which are list indices by strconv base 0; numeric-looking names that are no index: -1, 2^63-1, 10^30, an Arabic-Indic digit; upper-case names; a name of 300 bytes; the separators of the other option sets), the empty name below the empty name more often than by chance; every leaf path is cut into dotted groups independently (so any subset of the object edges, and of the list edges as index segments, is written dotted, next to nested spellings of sibling parts; a path through the empty name is joined like any other, giving keys such as \"a..c\", \".x\", \"x.\", \"a..\", \".\" under \".\" and \"a->->c\" under \"->\" - only next to a separator that overlaps itself (\"::\", \"..\", \"--\") the empty name stays nested, as \"a::::c\" is not clear), numbers, nils and pointer/interface chains around nodes and inline members as in repr-roundtrip (every sized and named Go kind over its whole range incl. float32 values that are no short decimals; typed nil pointers; chains of up to 4 typed-pointer / pointer-to-interface links in any alternation; boxed children of typed containers), objects are generic maps (1/2), structs (1/4: keys in tags, spread in their stated order over runs of tagged fields and inline members - inline maps of 4 kinds, inline struct, *struct, nested inline struct, interface{} field - so that inline members overlap sibling fields; all fields tagged under the selected one of 4 tag names, which carries the keys, and under one other, which carries another name) or any other representation (interface-keyed and typed maps, pointers, *Config); the spelled input F is the case, with its key insertion orders; run: F as stated plus every insertion order of the keys of every object in which two keys start with the same segment (all n! up to 4 keys, rotations and reversal above, at most 48 inputs; 8 repetitions each in replay mode) under the options must give the tree computed from F by an order-free, representation-free model (split keys at every occurrence of the separator - an empty segment is the empty name, nothing is trimmed or folded -, union, integer segments in [0,MaxIdx] are list indices except single-segment keys under EnableNumKeys; two literals of one index are one element), the same normalised hook fingerprint as NewFrom(nested tree), and be stable when fed back. Values are not compared when a node has names next to a list part under EnableNumKeys or beyond MaxIdx."
 
 var subFlat = runlog.Register(&runlog.Sub[FlatCase]{
 	Name: "flatten",
@@ -814,7 +848,7 @@ var subFlat = runlog.Register(&runlog.Sub[FlatCase]{
 
 var subDup = runlog.Register(&runlog.Sub[FlatCase]{
 	Name: "duplicates",
-	Rule: "as flatten (same option sets, separators and representations), plus one planted second definition of a path of T in a different spelling: primitive/primitive on a leaf, container over a primitive leaf, primitive over a container, container/container overlapping in a leaf, container/container with fresh (disjoint) leaves, or the same key a second time in one object (only structs can say that: two fields, or a field and a key of an inline member); the model decides from F alone: a primitive defined twice or a primitive and a container with a primitive below it at one path => NewFrom must fail with Reason()==ErrDuplicateKey (ErrExpectedObject also accepted iff a dotted key runs through a primitive given by another key), in every insertion order, each tried twice (8 times in replay mode) because a defective implementation depends on Go map iteration order; a nil second definition defines nothing; disjoint => must merge; primitive vs nil/empty container only => either. Non-trivial: a duplicate, or a container assembled from >=2 spellings. Distinct: hash of the case.",
+	Rule: "as flatten (same option sets, separators and representations), plus one planted second definition of a path of T in a different spelling: primitive/primitive on a leaf, container over a primitive leaf, primitive over a container, container/container overlapping in a leaf, container/container with fresh (disjoint) leaves (fresh keys also \"e<sep>\" and \"<sep>e\"), a primitive at the path of a leaf with one list index written as another literal of the same number (+1, 01, 0x1, 0X1, 0b1, 0o1, -0, 00), or the same key a second time in one object (only structs can say that: two fields, or a field and a key of an inline member); the model decides from F alone: a primitive defined twice or a primitive and a container with a primitive below it at one path => NewFrom must fail with Reason()==ErrDuplicateKey (ErrExpectedObject also accepted iff a dotted key runs through a primitive given by another key), in every insertion order, each tried twice (8 times in replay mode) because a defective implementation depends on Go map iteration order; a nil second definition defines nothing; disjoint => must merge (a.b and a..b, a and \"a.\" are different settings); primitive vs nil/empty container only => either. Non-trivial: a duplicate, or a container assembled from >=2 spellings. Distinct: hash of the case.",
 	Gen:  func(t *rapid.T) FlatCase { return genFlat(t, true) },
 	Run:  runFlat,
 })
@@ -850,6 +884,7 @@ func genHist(t *rapid.T) HistCase {
 	spell := genOptSet(t, 1)
 	fc := genFlatWith(t, spell, rapid.IntRange(0, 3).Draw(t, "plant") == 0, true)
 	c := HistCase{F: fc.F, Sep: spell.Sep, Planted: fc.Planted, Scheme: fc.Scheme, Primary: rapid.IntRange(0, 3).Draw(t, "primary")}
+	inKeys := sepsInKeys(fc.F, spell.Sep)
 	n := rapid.IntRange(2, 3).Draw(t, "nsteps")
 	for i := 0; i < n; i++ {
 		o := genOptSet(t, 0)
@@ -857,6 +892,11 @@ func genHist(t *rapid.T) HistCase {
 		case 0:
 		case 1:
 			o.Sep = rapid.SampledFrom(separators).Draw(t, "othersep")
+			if len(inKeys) > 0 && rapid.Bool().Draw(t, "sep-from-keys") {
+				// a separator that occurs in a key of the input (as a name of its own, inside a
+				// name, or made of the spelling separator: ".." in "a..c"): the key is split there
+				o.Sep = rapid.SampledFrom(inKeys).Draw(t, "keysep")
+			}
 		default:
 			o.Sep = spell.Sep
 		}
@@ -870,6 +910,32 @@ func genHist(t *rapid.T) HistCase {
 		c.Steps = append(c.Steps, Step{O: o, Merge: rapid.IntRange(0, 3).Draw(t, "merge") == 0})
 	}
 	return c
+}
+
+// sepsInKeys lists the separators other than spell that occur in some key of f.
+func sepsInKeys(f *gen.Tree, spell string) []string {
+	var out []string
+	seen := map[string]bool{spell: true}
+	for _, s := range separators {
+		if seen[s] {
+			continue
+		}
+		seen[s] = true
+		found := false
+		f.Walk(nil, func(_ []string, n *gen.Tree) {
+			if n.K == "obj" {
+				for _, k := range n.Keys {
+					if strings.Contains(k, s) {
+						found = true
+					}
+				}
+			}
+		})
+		if found {
+			out = append(out, s)
+		}
+	}
+	return out
 }
 
 func runHist(c HistCase, r *runlog.R) error {
@@ -902,7 +968,7 @@ func runHist(c HistCase, r *runlog.R) error {
 		strict  string
 	}
 	outs := make([]outcome, len(steps))
-	sawStruct := false
+	sawStruct, splitByOther, emptyByOther := false, false, false
 	var exps []*expectation
 	for si, st := range steps {
 		o := st.O
@@ -943,6 +1009,12 @@ func runHist(c HistCase, r *runlog.R) error {
 		if o.tagIdx() != c.Primary {
 			sawStruct = true
 		}
+		if o.Sep != "" && o.Sep != c.Sep && e.m.dotted > 0 {
+			splitByOther = true
+			if e.m.emptyInner+e.m.emptyLead+e.m.emptyTrail > 0 {
+				emptyByOther = true
+			}
+		}
 	}
 	// the same input under the same options, before and after the other steps
 	first, last := outs[0], outs[len(outs)-1]
@@ -967,6 +1039,8 @@ func runHist(c HistCase, r *runlog.R) error {
 	r.ClassIf(len(tags) >= 2, "the same types under >=2 struct tags")
 	r.ClassIf(len(tags) >= 2 && used["struct"]+used["*struct"] > 0 && sawStruct, "the same struct types under >=2 struct tags")
 	r.ClassIf(len(seps) >= 2, "the same input under >=2 separators (or none)")
+	r.ClassIf(splitByOther, "a step splits keys at another separator than the one the input was spelled with")
+	r.ClassIf(emptyByOther, "a step splits keys at another separator, leaving an empty segment")
 	// the classes of the steps, each counted once per case
 	seen := map[string]bool{}
 	once := func(l string) {
@@ -993,7 +1067,7 @@ func runHist(c HistCase, r *runlog.R) error {
 
 var subHist = runlog.Register(&runlog.Sub[HistCase]{
 	Name: "option-history",
-	Rule: "an input as in flatten/duplicates (spelled with one of the 37 separators; 1/4 with a planted second definition; no embedded *Config; objects are structs more often) is built ONCE as a Go value whose struct types carry names under 4 tag names (one carries the keys, the others names derived by 6 schemes: suffix, rotated, first field ignored, first field unnamed, inline members named instead of inlined, prefixed with the separator); it is normalised under 2-3 option sets in sequence (separator: the spelling one, another one, or none; struct tag: any of the 4 or none; EnableNumKeys, MaxIdx, EscapePath; through NewFrom or New+Merge) and under the first one again; every step must give what the model computes for the tree as it reads under that step's tag and options (same verdict rules as duplicates), and the first step repeated at the end must give a byte-identical hook fingerprint. A step whose separator does not split some key of the input clearly (empty segment, overlapping separators) is left out. Non-trivial: the expected outcome differs between at least two of the steps. Distinct: hash of the case.",
+	Rule: "an input as in flatten/duplicates (spelled with one of the 37 separators; 1/4 with a planted second definition; no embedded *Config; objects are structs more often) is built ONCE as a Go value whose struct types carry names under 4 tag names (one carries the keys, the others names derived by 6 schemes: suffix, rotated, first field ignored, first field unnamed, inline members named instead of inlined, prefixed with the separator); it is normalised under 2-3 option sets in sequence (separator: the spelling one, another one - every second time one that occurs in a key of the input, as a name of its own, inside a name, or made of the spelling separator like \"..\" in \"a..c\" - or none; struct tag: any of the 4 or none; EnableNumKeys, MaxIdx, EscapePath; through NewFrom or New+Merge) and under the first one again; every step must give what the model computes for the tree as it reads under that step's tag and options (same verdict rules as duplicates), and the first step repeated at the end must give a byte-identical hook fingerprint. A step whose separator does not split some key of the input clearly (overlapping occurrences of the separator) is left out; empty segments are clear (the empty name). Non-trivial: the expected outcome differs between at least two of the steps. Distinct: hash of the case.",
 	Gen:  genHist,
 	Run:  runHist,
 })
